@@ -79,6 +79,65 @@ def check(run: Run) -> None:
     from .c04 import check_untyped_caches
 
     check_untyped_caches(run, "R06.7")
+    _r06_8(run)
+
+
+def _r06_8(run: Run) -> None:
+    """text <-> bytes is decided by the call, not by the process locale"""
+    run.rule("R06.8", "text I/O names its encoding: every open()/os.fdopen()/Path.open()/read_text()/write_text()/NamedTemporaryFile in the package either is binary (a 'b' in a constant mode) or passes encoding=<constant>; .encode()/.decode()/bytes(str)/str(bytes) without an explicit codec use the fixed utf-8 default and are not locale-dependent", 10)
+    n = 0
+    for m in run.project.modules.values():
+        for fi in list(m.functions.values()) + [None]:
+            body = walk_no_nested(fi.node) if fi is not None else (x for st in m.tree.body if not isinstance(st, (ast.FunctionDef, ast.AsyncFunctionDef, ast.ClassDef)) for x in ast.walk(st))
+            for c in body:
+                if not isinstance(c, ast.Call):
+                    continue
+                f = c.func
+                name = f.id if isinstance(f, ast.Name) else (f.attr if isinstance(f, ast.Attribute) else "")
+                full = ast.unparse(f)
+                kind = None
+                mode_pos = None
+                if full in ("open", "io.open", "builtins.open", "codecs.open"):
+                    kind, mode_pos = "open", 1
+                elif full in ("os.fdopen",):
+                    kind, mode_pos = "fdopen", 1
+                elif name in ("read_text", "write_text") and isinstance(f, ast.Attribute):
+                    kind = name
+                elif name == "open" and isinstance(f, ast.Attribute) and full not in ("os.open", "webbrowser.open", "click.open_file"):
+                    kind, mode_pos = "Path.open", 0
+                elif name in ("NamedTemporaryFile", "TemporaryFile", "SpooledTemporaryFile"):
+                    kind, mode_pos = name, 0
+                elif full == "click.open_file":
+                    kind, mode_pos = "click.open_file", 1
+                if kind is None:
+                    continue
+                mode = None
+                if mode_pos is not None:
+                    if len(c.args) > mode_pos:
+                        mode = c.args[mode_pos]
+                    for k in c.keywords:
+                        if k.arg == "mode":
+                            mode = k.value
+                binary = isinstance(mode, ast.Constant) and isinstance(mode.value, str) and "b" in mode.value
+                if kind in ("NamedTemporaryFile", "TemporaryFile", "SpooledTemporaryFile") and mode is None:
+                    binary = True  # default mode of the tempfile constructors is w+b
+                enc = next((k.value for k in c.keywords if k.arg == "encoding"), None)
+                if enc is None and kind in ("read_text",) and c.args:
+                    enc = c.args[0]
+                if enc is None and kind == "write_text" and len(c.args) > 1:
+                    enc = c.args[1]
+                ok = binary or (isinstance(enc, ast.Constant) and isinstance(enc.value, str))
+                if mode is not None and not isinstance(mode, ast.Constant) and enc is None:
+                    ok = False  # a computed mode may be text
+                n += 1
+                q = fi.qualname if fi is not None else "<module>"
+                run.instance("R06.8", m.loc(c), f"{q}: `{norm(c)[:90]}` " + ("binary" if binary else f"encoding={ast.unparse(enc) if enc is not None else 'not given'}"), ok=ok)
+                if not ok:
+                    run.violation("R06.8", m, q, c, f"`{norm(c)[:120]}` converts between file bytes and text in the process's locale encoding (no encoding= argument): the same file reads differently, or fails with UnicodeDecodeError, under LC_ALL=C / a legacy code page, so results depend on the locale and not only on the input")
+    if n == 0:
+        raise AnalysisError("R06.8: no file open / read_text / write_text call found in the package")
+    ctl = ast.parse("open(p)").body[0].value  # type: ignore[attr-defined]
+    run.control("R06.8", "open(p) without encoding= is recognised", isinstance(ctl, ast.Call) and not ctl.keywords)
 
 
 # ------------------------------------------------------------------ R06.1
